@@ -382,7 +382,7 @@ def str_tests(fn):
     {bb, lit, subject: Origin, true_bb, false_bb}"""
     out = []
     for b, t in fn.calls():
-        if not is_str_eq(t) and not (t.j.get("callee_name") in ("eq", "ne") and any(a.kind == "const" and a.const.get("k") == "str" for a in t.args)):
+        if not is_str_eq(t) and not (t.j.get("callee_name") in ("eq", "ne") and (any(a.kind == "const" and a.const.get("k") == "str" for a in t.args) or (t.j.get("callee_inst") or "").startswith(("<&str as std::cmp::PartialEq", "<&&str as std::cmp::PartialEq", "<std::string::String as std::cmp::PartialEq")))):
             continue
         lits = [(i, a.const["v"]) for i, a in enumerate(t.args) if a.kind == "const" and a.const.get("k") == "str"]
         if len(lits) != 1:
